@@ -278,7 +278,14 @@ func (e *specEnv) expr(n ast.Expr) Val {
 	case *ast.CallExpr:
 		return e.callExpr(t)
 	case *ast.TypeAssertExpr:
-		e.fail(n, "type assertion in spec (use typeIs)")
+		// x.(*T) on an interface value: the pointer it holds, meaningful only under a typeIs(x, *T) guard
+		if pt, ok := e.typeOf(n).(*types.Pointer); ok && t.Type != nil {
+			xv := e.expr(t.X)
+			if xv.K == VIface {
+				return Val{K: VPtr, Prefix: canonPrefix(pt.Elem()), Ref: xv.Fs[1].T, Ty: pt}
+			}
+		}
+		e.fail(n, "type assertion in spec: only x.(*T) on an interface value (guard it with typeIs)")
 	}
 	e.fail(n, "unsupported expression %T", n)
 	return Val{}
